@@ -1,13 +1,36 @@
 #!/usr/bin/env python3
 """Regenerate known/rates.json from evidence of runs on the UNCHANGED tree.
 usage: tools/known_rates.py [seeds...]   (default 1 2 3; runs ./check Cxx quick for every claimed property and seed,
-keeps per property and known finding the highest rate hits/evaluations).  Run only when /repo is the unchanged
+keeps per property and known finding the highest rate hits/evaluations).
+       tools/known_rates.py --from-evidence thorough   (takes the rates of tier thorough from the evidence files of a
+thorough run that has just finished green, without running anything).
+The file holds one table per tier: {"quick": {prop: {finding: rate}}, "thorough": {...}}.  Run only when /repo is the unchanged
 tree and all checks are green; the file is committed and never written by ./check."""
 import json, os, subprocess, sys
 V = os.path.dirname(os.path.dirname(os.path.abspath(__file__)))
-seeds = sys.argv[1:] or ["1", "2", "3"]
+rp = os.path.join(V, "known", "rates.json")
+allr = json.load(open(rp)) if os.path.exists(rp) else {}
+if "quick" not in allr and "thorough" not in allr:
+    allr = {}
+tier = "quick"
+from_ev = len(sys.argv) > 2 and sys.argv[1] == "--from-evidence"
+if from_ev:
+    tier = sys.argv[2]
+seeds = [] if from_ev else (sys.argv[1:] or ["1", "2", "3"])
 props = [c["property_id"] for c in json.load(open(os.path.join(V, "MANIFEST.json")))["checks"]]
 rates = {}
+def take(p):
+    ev = json.load(open(os.path.join(V, "evidence", p + ".json")))
+    if ev.get("tier") != tier:
+        print(p, "evidence is of tier", ev.get("tier"), "- skipped")
+        return
+    for i, c in (ev["coverage"].get("known_findings_hit_counts") or {}).items():
+        if c["evaluations_of_reporting_harnesses"]:
+            rate = c["hits"] / c["evaluations_of_reporting_harnesses"]
+            rates.setdefault(p, {})[i] = max(rates.get(p, {}).get(i, 0.0), round(rate, 5))
+if from_ev:
+    for p in props:
+        take(p)
 for p in props:
     for s in seeds:
         r = subprocess.run(["./check", p, "quick"], cwd=V, env=dict(os.environ, VERIF_SEED=s), capture_output=True, text=True)
@@ -15,10 +38,7 @@ for p in props:
         print(p, s, r.returncode, last[:140], flush=True)
         if r.returncode != 0:
             continue
-        ev = json.load(open(os.path.join(V, "evidence", p + ".json")))
-        for i, c in (ev["coverage"].get("known_findings_hit_counts") or {}).items():
-            if c["evaluations_of_reporting_harnesses"]:
-                rate = c["hits"] / c["evaluations_of_reporting_harnesses"]
-                rates.setdefault(p, {})[i] = max(rates.get(p, {}).get(i, 0.0), round(rate, 5))
-json.dump(rates, open(os.path.join(V, "known", "rates.json"), "w"), indent=1, sort_keys=True)
+        take(p)
+allr[tier] = rates
+json.dump(allr, open(rp, "w"), indent=1, sort_keys=True)
 print("written known/rates.json")
